@@ -13,19 +13,25 @@ PROPS = {
     "C07": {
         "rule": "case = one extension-type expression: every pool string through its constructor (bounded-exhaustive prefix), the boundary grid datetime x duration for offset/durationSince/comparisons and ip x ip for isInRange (bounded-exhaustive prefix), then random grammar-generated constructor strings, one-edit near misses, equality of two spellings, and every operation on boundary operands; evaluated through Evaluator::interpret and (constructors) RestrictedExpression::new_* read back from a context; oracle = independent calculators; distinct = hash of the expression; every case is non-trivial (it exercises at least one extension function)",
         "assumptions": [ORACLE_REFSEM, "raw IPv4/IPv6 address grammar is that of std::net (outside the repository); calculators in ext.rs re-implement it by hand"],
-        "quick": {"cases": 60000, "secs": 40, "min_distinct": 100000},
+        "quick": {"cases": 60000, "secs": 40, "min_distinct": 30000},
         "thorough": {"cases": 400000, "secs": 600, "min_distinct": 1000000},
     },
     "C01": {
         "rule": "case = random world + policy set of 0..8 policies (static or template-linked) each built to have an intended outcome (satisfied / not satisfied / erroring, incl. errors hidden behind short-circuits) confirmed by the reference interpreter; the first 2*(6^0+..+6^3) indices (6^4 in thorough) enumerate every (effect, outcome) vector for n<=3 (4); the response (decision, reasons, erroring ids, error classes) is compared with the authorizer model, then the same inputs are re-presented 7 ways (same call twice, policies re-added in shuffled order with re-rendered text, ids renamed by a bijection into hostile spellings, entities shuffled / added incrementally / loaded from JSON, same Authorizer after unrelated calls) and every answer must coincide; non-trivial = >=1 policy and >=3 re-presentations answered; distinct = hash of (policies, slot bindings, world)",
         "assumptions": [ORACLE_REFSEM, "per-policy outcomes come from the reference interpreter, not from the library"],
-        "quick": {"cases": 8000, "secs": 45, "min_distinct": 30000},
+        "quick": {"cases": 8000, "secs": 45, "min_distinct": 10000},
         "thorough": {"cases": 300000, "secs": 900, "min_distinct": 1000000},
     },
     "C03": {
         "rule": "case = random schema (namespaces, common types, optional attributes, nested records, sets, tags, memberOf cycles between types, enums, action groups, per-action contexts) + one request environment + a type-directed policy pinned to that environment (guards `has`/`hasTag` in the documented shapes; 30% of cases run the generator with a knob that omits guards or mistypes operands); validated strict and permissive; fault-free programs must be accepted (non-vacuity, frozen family), strict-accepted => permissive-accepted; each strictly accepted policy is evaluated on 8 (20 thorough) conformant worlds accepted by the library's own request/entity validation: no type / missing-attribute / unknown-function error, impossible-or-irrelevant policies never satisfied, and every value in the evaluator trace of the erased typed AST inhabits the annotated type; non-trivial = accepted (policy, env) evaluated on >=1 accepted world; distinct = hash of (schema, policy, env)",
         "assumptions": ["worlds are conformant by construction (schema.rs WorldGen) and additionally must pass the library's own Request::new / Entities::from_entities schema validation, as the property's precondition says", "non-vacuity is judged on the fixed family of program shapes produced by schema.rs TypedGen with all guards in place"],
-        "quick": {"cases": 2500, "secs": 45, "min_distinct": 10000, "min_counters": {"trace_events_checked": 100000, "worlds_evaluated": 20000}},
+        "quick": {"cases": 2500, "secs": 45, "min_distinct": 4000, "min_counters": {"trace_events_checked": 50000, "worlds_evaluated": 10000}},
         "thorough": {"cases": 60000, "secs": 900, "min_distinct": 300000},
+    },
+    "C09": {
+        "rule": "case = random schema model (1-3 namespaces, common types, nested records, sets, optional attributes, tags, enums, action groups and memberOf across namespaces, names needing quotes) printed by two independent harness printers (JSON with random Entity/EntityOrCommon spelling and qualified/unqualified references; Cedar syntax with qualified/unqualified references); both loaded; each translated by the library to the other syntax (to_cedarschema / to_json_value) and reloaded; all pairs compared by ValidatorSchema ==, by a structural digest through accessors (entity types, descendants, attribute types and optionality, tags, enum choices, actions, applicable principal/resource types, context types, action descendants/groups) and by behaviour (3 policies + 3 requests/entity sets validated under every loaded schema); case 0 and 4% of cases make one side of an appliesTo empty (directed probe of the listed known finding); non-trivial = >=2 namespaces or >=1 common type; distinct = hash of (model, styles)",
+        "assumptions": ["the two harness printers are written from the documented schema formats; a schema that either refuses to load is a harness error, not a verdict"],
+        "quick": {"cases": 1500, "secs": 45, "min_distinct": 1500},
+        "thorough": {"cases": 40000, "secs": 900, "min_distinct": 100000},
     },
 }
